@@ -316,6 +316,52 @@ package vnet
 //@   ghost before onInboundChunk#1: assert [due] chStamp[ref(chunk)] + r.minDelay <= rtEntered; assert [once] rtHanded < rtIdx && rtItem == ref(chunk); rtHanded = rtIdx; fwdIdx[fwdN] = rtIdx; fwdItem[fwdN] = rtItem; fwdTick[fwdN] = rtEntered
 //@   ghost before push#1: assert [dueup] chStamp[rtItem] + r.minDelay <= rtEntered; assert [onceup] rtHanded < rtIdx; rtHanded = rtIdx
 
+// ---- token bucket filter (C15).  Ideal bucket (ghost, on the filter's own clock): tbIdeal tokens at time tbAt;
+// ---- it starts full, gains rate/8 bytes per second up to the burst, loses the size of every forwarded chunk and must
+// ---- never go negative (the classical equivalent of: bytes forwarded in any interval <= burst + rate * interval).
+// ---- tbRate / tbBurst: the settings the last refill read under the lock.
+//@ monitor TokenBucketFilter mutex: rate, maxBurst
+//@ ghost global tbIdeal float64
+//@ ghost global tbAt mathint
+//@ ghost global tbRate mathint
+//@ ghost global tbBurst mathint
+//@ func (t *TokenBucketFilter) refillTokens(dt time.Duration)
+//@   requires t.log != nil && dt >= 0
+//@   modifies t.currentTokensInBucket, tbRate, tbBurst
+//@   ensures [read] tbRate == atlock(t.rate) && tbBurst == atlock(t.maxBurst)
+//@   ensures [add] t.currentTokensInBucket == ite(float64(tbBurst) <= old(t.currentTokensInBucket) + float64(tbRate) * (float64(dt) / float64(1000000000)) / float64(8),
+//@            float64(tbBurst), old(t.currentTokensInBucket) + float64(tbRate) * (float64(dt) / float64(1000000000)) / float64(8))
+//@   ghost at lock: tbRate = t.rate; tbBurst = t.maxBurst
+
+//@ func (t *TokenBucketFilter) drainQueue()
+//@   role consumer
+//@   requires t.queue != nil && t.NIC != nil && t.log != nil
+//@   requires [advanced] tbAt == clock
+//@   requires [bucket] t.currentTokensInBucket <= tbIdeal
+//@   modifies t.currentTokensInBucket, tbIdeal, fwdN, fwdNIC, fwdChunk, fwdIdx, fwdItem
+//@   ensures [bucket] t.currentTokensInBucket <= tbIdeal && tbIdeal - t.currentTokensInBucket == old(tbIdeal - t.currentTokensInBucket)
+//@   ensures [nonneg] old(t.currentTokensInBucket) >= float64(0) ==> t.currentTokensInBucket >= float64(0)
+//@   ensures [fifo] fwdN >= old(fwdN)
+//@   loop 1 invariant [bucket] t.currentTokensInBucket <= tbIdeal && tbIdeal - t.currentTokensInBucket == old(tbIdeal - t.currentTokensInBucket) &&
+//@            (old(t.currentTokensInBucket) >= float64(0) ==> t.currentTokensInBucket >= float64(0))
+//@   loop 1 invariant [fifo] fwdN - old(fwdN) == t.queue.head - old(t.queue.head) && fwdN >= old(fwdN) &&
+//@            (forall k mathint :: {fwdNIC[k]} old(fwdN) <= k && k < fwdN ==> fwdNIC[k] == ref(t.NIC) && fwdIdx[k] == old(t.queue.head) + k - old(fwdN) && fwdItem[k] == fwdChunk[k])
+//@   ghost after pop#1: assert [popped] result$1 && ref(next) == ref(result$0); fwdIdx[fwdN] = t.queue.head - 1; fwdItem[fwdN] = ref(next)
+//@   ghost after onInboundChunk#1: tbIdeal = tbIdeal - float64(chLen[ref(next)]); assert [ideal] tbIdeal >= float64(0) || old(t.currentTokensInBucket) < float64(0)
+
+//@ func (t *TokenBucketFilter) run()
+//@   role consumer
+//@   requires t.queue != nil && t.NIC != nil && t.log != nil && t.minRefillDuration >= 0 && t.currentTokensInBucket == float64(0)
+//@   modifies clock, lastPushed, t.currentTokensInBucket, tbRate, tbBurst, tbIdeal, tbAt, fwdN, fwdNIC, fwdChunk, fwdIdx, fwdItem
+//@   ensures [bucket] t.currentTokensInBucket <= tbIdeal
+//@   loop 1 invariant [bucket] t.currentTokensInBucket <= tbIdeal && tbAt == lastRefill && tbAt == clock
+//@   ghost after refillTokens#1: tbIdeal = float64(tbBurst)
+//@   ghost after Now#1: tbAt = result$
+//@   ghost after refillTokens#2: tbIdeal = ite(float64(tbBurst) <= tbIdeal + float64(tbRate) * (float64(now - tbAt) / float64(1000000000)) / float64(8), float64(tbBurst), tbIdeal + float64(tbRate) * (float64(now - tbAt) / float64(1000000000)) / float64(8)); tbAt = now
+
+//@ func (t *TokenBucketFilter) onInboundChunk(c Chunk)
+//@   requires c != nil
+
 // ---- address assignment (C13)
 //@ axiom ip4Inj: forall a, b, c, d, e, f, g, h mathint :: {ip4str(a, b, c, d), ip4str(e, f, g, h)} ip4str(a, b, c, d) == ip4str(e, f, g, h) ==> a == e && b == f && c == g && d == h
 
@@ -589,7 +635,7 @@ package vnet
 //@ field UDPConn readDeadline immutable
 //@ field TokenBucketFilter NIC immutable
 //@ field TokenBucketFilter currentTokensInBucket confined run,refillTokens,drainQueue
-//@ field TokenBucketFilter c immutable
+//@ field TokenBucketFilter c openchan+nonnil
 //@ field TokenBucketFilter queue immutable
 //@ field TokenBucketFilter queueSize config TBFQueueSizeInBytes$1
 //@ field TokenBucketFilter rate guarded_by mutex
@@ -609,6 +655,7 @@ package vnet
 //@ property C02: networkAddressTranslator.translateOutbound, networkAddressTranslator.findOutboundMapping, networkAddressTranslator.allocUDPPort, networkAddressTranslator.removeMapping
 //@ property C03: networkAddressTranslator.translateInbound, networkAddressTranslator.removeMapping
 //@ property C14: chunkQueue.push, chunkQueue.pop, chunkQueue.peek, DelayFilter.onInboundChunk, DelayFilter.Run, Router.push, Router.processChunks, Router.AddChunkFilter
+//@ property C15: TokenBucketFilter.refillTokens, TokenBucketFilter.drainQueue, TokenBucketFilter.run, TokenBucketFilter.onInboundChunk, chunkQueue.push, chunkQueue.pop, chunkQueue.peek
 //@ property C13: Router.assignIPAddress, Router.addNIC, udpConnMap.insert, udpConnMap.find, udpConnMap.delete, newUDPConn, UDPConn.onInboundChunk, UDPConn.Close, Net.onInboundChunk, Net.onClosed, Net.allocateLocalAddr, Net.assignPort, Net._dialUDP
 //@ property C10: UDPConn.ReadFrom, UDPConn.Read, UDPConn.SetReadDeadline, UDPConn.SetDeadline
 //@ property C16: NewLossFilter, LossFilter.onInboundChunk
